@@ -4,7 +4,7 @@ patch=$(readlink -f "$1"); shift
 cd /repo || exit 2
 if [ -n "$(git status --porcelain --untracked-files=no)" ]; then echo "repo dirty"; exit 2; fi
 git apply "$patch" || { echo "PATCH DOES NOT APPLY"; exit 3; }
-trap 'git -C /repo checkout -- . ' EXIT
+trap 'git -C /repo checkout -- . ' EXIT INT TERM HUP
 for id in "$@"; do
   out=$(cd /verif && ./check "$id" --tier ${TIER:-quick} 2>&1); rc=$?
   echo "== $id rc=$rc  $(echo "$out" | grep -c '^VIOLATION') violation line(s)"
